@@ -17,7 +17,9 @@
  *
  * case:   7c <init> { <call> <clients> <subject> }...
  *   init     2 octets: relayclient, ssl_verified at the start
- *   call     12 octets: op (0 tls_verify(), 1 is_authenticated()); flags (bit0 TLS active, bit1 xmitstat.authname set);
+ *   call     12 octets: op (0 tls_verify(), 1 is_authenticated(), 2 end of a transaction: the two statements of freedata() in
+ *            qsmtpd/qsmtpd.c that touch this state, "free(xmitstat.tlsclient); xmitstat.tlsclient = NULL;", TRANSCRIBED here -
+ *            tools/translators/tlsverify.py checks that freedata() contains exactly them and does not mention relayclient); flags (bit0 TLS active, bit1 xmitstat.authname set);
  *            relay list (0 no file, 1 not listed, 2 listed, 3 lookup error); tlsclients (0 loadlistfd fails, 1 NULL list, 2 list);
  *            errno of the failing loadlistfd; SSL_load_client_CA_file ok (1) / NULL (0); result of SSL_set_session_id_context
  *            (signed octet); result of ssl_timeoutrehandshake (signed octet); SSL_get_verify_result; peer certificate present;
@@ -242,7 +244,7 @@ static void run_case(int nf, struct field *f)
 {
 	if (nf < 2 || (nf - 2) % 3 != 0 || f[0].len != 1 || f[0].p[0] != 0x7c || f[1].len != 2) { out_str("BADCASE"); return; }
 	for (int c = 2; c < nf; c += 3)
-		if (f[c].len != 12) { out_str("BADCASE"); return; }
+		if (f[c].len != 12 || f[c].p[0] > 2) { out_str("BADCASE"); return; }
 	relayclient = f[1].p[0];
 	ssl_verified = f[1].p[1];
 	free(xmitstat.tlsclient);
@@ -265,7 +267,13 @@ static void run_case(int nf, struct field *f)
 			return;
 		}
 		errno = 0;
-		int r = a[0] ? is_authenticated() : tls_verify();
+		int r = 0;
+		if (a[0] == 2) {
+			free(xmitstat.tlsclient);
+			xmitstat.tlsclient = NULL;
+		} else {
+			r = a[0] ? is_authenticated() : tls_verify();
+		}
 		put_state("r", r);
 		X509_free(cur.cert);
 	}
